@@ -1409,6 +1409,56 @@ func c06UpdateKeepsOrder(w *World, r *Report, ra *repoAnchors) {
 		if !removes || len(addCalls) == 0 {
 			continue
 		}
+		// the removing side: what is removed is the complete loaded rule set of the source - one
+		// selection from the known rules - not a selection of that selection (the changed and vanished
+		// rules only): settings tied to tree nodes (backtracking) and the order among the remaining
+		// rules are otherwise not those of a fresh load
+		for _, c := range callsIn(fn) {
+			callee := c.Common().StaticCallee()
+			if callee == nil || callee.Signature.Recv() == nil || derefNamed(callee.Signature.Recv().Type()) != ra.t || len(c.Common().Args) != 3 {
+				continue
+			}
+			isRemover := false
+			for _, e := range w.CG().Out[callee] {
+				if e.Callee.Signature.Recv() != nil && derefNamed(e.Callee.Signature.Recv().Type()) != nil && derefNamed(e.Callee.Signature.Recv().Type()).Origin() == ra.treeT.Origin() && strings.HasPrefix(e.Callee.Name(), "Delete") {
+					isRemover = true
+				}
+			}
+			if !isRemover {
+				continue
+			}
+			n++
+			okR, posR := true, c.Pos()
+			for _, s := range w.Sources(c.Common().Args[2], c.Block()) {
+				if s.Kind == "nil" {
+					continue
+				}
+				sel, _ := resultOfCall(s.V)
+				direct := false
+				if sel != nil && len(sel.Common().Args) > 0 {
+					if _, fld := fieldLoad(stripConv(sel.Common().Args[0])); fld == ra.known {
+						direct = true
+					}
+				}
+				if _, fld := fieldLoad(stripConv(s.V)); fld == ra.known {
+					direct = true
+				}
+				if direct {
+					continue
+				}
+				sv := s.V
+				if !srcOnlyVia(fn, s, func(f Fact) bool {
+					l, kd := lenFact(f)
+					return l != nil && kd == "empty" && (l == sv || sameValue(l, sv))
+				}) {
+					okR = false
+					if in, isIn := s.V.(ssa.Instruction); isIn && in.Pos().IsValid() {
+						posR = in.Pos()
+					}
+				}
+			}
+			r.Ob(ri, fmt.Sprintf("%s|removes-complete-rule-set#%d", w.FnName(fn), n), posR, okR, "the update removes a computed subset of the loaded rules of the source (the changed and vanished ones): an update that only reorders rules is ignored, and after one that only removes rules the tree nodes keep settings of the removed rules (backtracking) - in both cases matching differs from a fresh load of the new rule set")
+		}
 		// the new rule set: the slice-typed parameter of the mutator
 		var newSet *ssa.Parameter
 		for _, p := range fn.Params[1:] {
